@@ -4,11 +4,13 @@ itertools, operator, math, a slice of numpy on lists / Mat / Vec).  Registered i
 """
 from __future__ import annotations
 
+import collections
+
 import itertools
 import math
 from typing import Any, Dict
 
-from .abseval import Unsupported, Obj, Mat, Vec, Sym, Lin, OnceIter, AbsRaise, norm_dtype, check_dtype
+from .abseval import Unsupported, Obj, Mat, Vec, Sym, Lin, OnceIter, AbsRaise, norm_dtype, check_dtype, DType
 from .npmodel import Cube, GraphObj
 from .instances import Runtime, Instance, ExternalFunc
 
@@ -44,8 +46,29 @@ def deep(v, memo=None):
     return v
 
 
-class CounterObj(dict):
-    pass
+class CounterObj(collections.Counter):
+    """collections.Counter itself (missing keys count 0, most_common, subtract, unary + / -, multiset operators)."""
+
+
+class DequeObj(list):
+    """collections.deque as a list with the extra operations at the left end (no maxlen)."""
+
+    def appendleft(self, x):
+        self.insert(0, x)
+
+    def popleft(self):
+        if not self:
+            raise IndexError("pop from an empty deque")
+        return self.pop(0)
+
+    def extendleft(self, it):
+        for x in it:
+            self.insert(0, x)
+
+    def rotate(self, n=1):
+        if self:
+            n %= len(self)
+            self[:] = self[-n:] + self[:-n]
 
 
 class RandomPolicy:
@@ -78,12 +101,14 @@ def install(rt: Runtime) -> Runtime:
     ex["copy.deepcopy"] = fn(lambda v: deep(v))
     ex["copy.copy"] = fn(lambda v: list(v) if isinstance(v, list) else (set(v) if isinstance(v, set) else (dict(v) if isinstance(v, dict) else v)))
 
-    def counter(it=()):
+    def counter(it=(), **kw):
         c = CounterObj()
         if hasattr(it, "abs_iter"):
             it = it.abs_iter()
-        for x in it:
-            c[x] = c.get(x, 0) + 1
+        if isinstance(it, (set, frozenset)):
+            from .abseval import set_items
+            it = set_items(it)
+        c.update(it, **kw)
         return c
     ex["collections.Counter"] = fn(counter)
     ex["itertools.combinations"] = fn(lambda seq, k: OnceIter([tuple(c) for c in itertools.combinations(
@@ -239,7 +264,11 @@ def install(rt: Runtime) -> Runtime:
         return d
     ex["collections.defaultdict"] = fn(defaultdict)
     ex["collections.OrderedDict"] = fn(lambda *a, **k: dict(*[seq_of(x) if not isinstance(x, dict) else x for x in a], **k))
-    ex["collections.deque"] = fn(lambda it=(), maxlen=None: list(seq_of(it)))
+    def deque_ctor(it=(), maxlen=None):
+        if maxlen is not None:
+            raise Unsupported("deque with a maximum length")
+        return DequeObj(seq_of(it))
+    ex["collections.deque"] = fn(deque_ctor)
     ex["operator.attrgetter"] = fn(lambda name: ExternalFunc(lambda a, k, ev, node: ev.getattr_value(a[0], name, node)))
     for _op, _f in (("add", lambda a, b: a + b), ("mul", lambda a, b: a * b), ("sub", lambda a, b: a - b),
                     ("lt", lambda a, b: a < b), ("le", lambda a, b: a <= b), ("gt", lambda a, b: a > b),
@@ -311,8 +340,26 @@ def install(rt: Runtime) -> Runtime:
         ex[f"re.{_f}"] = int(getattr(_re, _f))
 
     # ---- numpy slice ----------------------------------------------------------------------------------------
+    def infer_dtype(cells):
+        """dtype numpy would give an array built from these python values (None when it cannot be told)."""
+        if not cells:
+            return "float64"
+        if all(isinstance(x, bool) for x in cells):
+            return "bool_"
+        if all(isinstance(x, int) for x in cells):
+            return "int64"
+        if all(isinstance(x, (int, float)) for x in cells):
+            return "float64"
+        return None
+
+    def dtype_of(v):
+        if isinstance(v, (Vec, Mat)) and v.dtype:
+            return v.dtype
+        cells = v.vals if isinstance(v, Vec) else ([x for r in v.rows for x in r] if isinstance(v, Mat) else None)
+        return infer_dtype(cells) if cells is not None else None
+
     def np_full(shape, value, dtype=None):
-        dt = norm_dtype(dtype)
+        dt = norm_dtype(dtype) or infer_dtype([value])
         r = np_full0(shape, check_dtype(dt, value, None))
         if isinstance(r, (Mat, Vec)) and isinstance(dt, str):
             r.dtype = dt
@@ -332,10 +379,10 @@ def install(rt: Runtime) -> Runtime:
         raise Unsupported("full shape")
 
     def np_zeros(shape, dtype=None):
-        return np_full(shape, 0, dtype)
+        return np_full(shape, 0, dtype or "float64")        # numpy's default element type is float64
 
     def np_ones(shape, dtype=None):
-        return np_full(shape, 1, dtype)
+        return np_full(shape, 1, dtype or "float64")
 
     def np_asarray(v, dtype=None):
         dt = norm_dtype(dtype)
@@ -355,10 +402,13 @@ def install(rt: Runtime) -> Runtime:
             return Vec(list(v))
         raise Unsupported("asarray operand")
 
-    def np_max(v):
+    def np_max(v, axis=None, initial=None):
+        if isinstance(v, Mat) and axis is not None:
+            return v._reduce(max, axis, None)
         vals = v.vals if isinstance(v, Vec) else v
         if isinstance(v, Mat):
             vals = [x for r in v.rows for x in r]
+        vals = list(vals) + ([initial] if initial is not None else [])
         if not vals:
             raise ValueError("zero-size array to reduction operation maximum which has no identity")
         return max(vals)
@@ -426,8 +476,11 @@ def install(rt: Runtime) -> Runtime:
             return out
         return r
 
-    def np_min(v):
+    def np_min(v, axis=None, initial=None):
+        if isinstance(v, Mat) and axis is not None:
+            return v._reduce(min, axis, None)
         vals = v.vals if isinstance(v, Vec) else ([x for r in v.rows for x in r] if isinstance(v, Mat) else list(v))
+        vals = list(vals) + ([initial] if initial is not None else [])
         if not vals:
             raise ValueError("zero-size array to reduction operation minimum which has no identity")
         return min(vals)
@@ -524,7 +577,18 @@ def install(rt: Runtime) -> Runtime:
     ex["numpy.absolute"] = ex["numpy.abs"]
     ex["numpy.argmin"] = fn(lambda v: min(range(len(v.vals)), key=lambda i: v.vals[i]))
     ex["numpy.argmax"] = fn(lambda v: max(range(len(v.vals)), key=lambda i: v.vals[i]))
-    ex["numpy.mean"] = fn(lambda v: sum(v.vals) / len(v.vals))
+    def np_mean(v, axis=None):
+        if isinstance(v, Mat):
+            return v._mean(axis, None)
+        cells = v.vals if isinstance(v, Vec) else list(v)
+        if not cells:
+            return float("nan")         # numpy: mean of an empty slice (with a warning)
+        tot = 0
+        for x in cells:
+            tot = tot + (1 if x is True else (0 if x is False else x))
+        return tot / len(cells)
+    ex["numpy.mean"] = fn(np_mean)
+    ex["numpy.average"] = fn(np_mean)
     def flat(v):
         if isinstance(v, Mat):
             return [x for r in v.rows for x in r]
@@ -533,7 +597,9 @@ def install(rt: Runtime) -> Runtime:
     ex["numpy.all"] = fn(lambda v: all(flat(v)))
     ex["numpy.round"] = fn(lambda v, d=0: Vec([round(x, d) for x in v.vals]) if isinstance(v, Vec) else round(v, d))
     ex["numpy.flatnonzero"] = fn(lambda v: Vec([i for i, m in enumerate(v.vals) if m]))
-    ex["numpy.nonzero"] = fn(lambda v: (Vec([i for i, m in enumerate(v.vals) if m]),))
+    ex["numpy.nonzero"] = fn(lambda v: (Vec([i for i, r in enumerate(v.rows) for x in r if x]),
+                                        Vec([j for r in v.rows for j, x in enumerate(r) if x])) if isinstance(v, Mat)
+                             else (Vec([i for i, m in enumerate(vals_of(v)) if m]),))
     ex["numpy.inf"] = float("inf")
     ex["math.inf"] = float("inf")
     ex["math.fabs"] = fn(lambda x: abs(x))
@@ -699,8 +765,20 @@ def install(rt: Runtime) -> Runtime:
         if not isinstance(m, Mat) or getattr(m, "frozen", False):
             raise Unsupported("fill_diagonal operand")
         for i in range(min(len(m.rows), len(m.rows[0]) if m.rows else 0)):
-            m.rows[i][i] = value
+            m.rows[i][i] = check_dtype(m.dtype, value, None)
         return None
+
+    def np_eye_general(n, m, k, dtype):
+        dt = norm_dtype(dtype) or "float64"
+        out = Mat([[check_dtype(dt, 1 if j - i == k else 0, None) for j in range(m or n)] for i in range(n)])
+        out.dtype = dt
+        return out
+
+    def np_eye(n, dtype=None):
+        dt = norm_dtype(dtype) or "float64"
+        m = Mat([[check_dtype(dt, 1 if i == j else 0, None) for j in range(n)] for i in range(n)])
+        m.dtype = dt
+        return m
     ex["numpy.fill_diagonal"] = fn(np_fill_diagonal)
 
     def np_ix(*seqs):
@@ -779,7 +857,19 @@ def install(rt: Runtime) -> Runtime:
     ex["numpy.unique"] = fn(np_unique2)
     ex["numpy.diff"] = fn(lambda v: Vec([b - a for a, b in zip(vals_of(v), vals_of(v)[1:])]))
     ex["numpy.prod"] = fn(lambda v: math.prod(num(x) for x in vals_of(v)))
-    ex["numpy.dot"] = fn(lambda a, b: np_vdot(a, b))
+    def np_dot(a, b):
+        if isinstance(a, Mat) and isinstance(b, Mat):
+            cols = list(zip(*b.rows))
+            return Mat([[sum(x * y for x, y in zip(r, c)) for c in cols] for r in a.rows])
+        if isinstance(a, Mat):
+            bv = b.vals if isinstance(b, Vec) else list(b)
+            return Vec([sum(x * y for x, y in zip(r, bv)) for r in a.rows])
+        if isinstance(b, Mat):
+            av = a.vals if isinstance(a, Vec) else list(a)
+            return Vec([sum(x * y for x, y in zip(av, c)) for c in zip(*b.rows)])
+        return np_vdot(a, b)
+    ex["numpy.dot"] = fn(np_dot)
+    ex["numpy.matmul"] = fn(np_dot)
     ex["numpy.sign"] = fn(lambda v: Vec([(x > 0) - (x < 0) for x in v.vals]) if isinstance(v, Vec) else (v > 0) - (v < 0))
     ex["numpy.clip"] = fn(lambda v, lo, hi: Vec([min(max(x, lo), hi) for x in v.vals]) if isinstance(v, Vec) else min(max(v, lo), hi))
     ex["numpy.floor"] = fn(lambda v: Vec([float(math.floor(x)) for x in v.vals]) if isinstance(v, Vec) else float(math.floor(v)))
@@ -794,17 +884,22 @@ def install(rt: Runtime) -> Runtime:
     ex["numpy.nan"] = float("nan")
     ex["numpy.pi"] = math.pi
 
-    def like(v, value):
+    def like(v, value, dtype=None):
+        dt = norm_dtype(dtype) or dtype_of(v)
+        value = check_dtype(dt, value, None)
         if isinstance(v, Mat):
             m = Mat([[value] * len(r) for r in v.rows])
+            m.dtype = dt
             return m
-        return Vec([value] * len(vals_of(v)))
-    ex["numpy.zeros_like"] = fn(lambda v, dtype=None: like(v, 0))
-    ex["numpy.ones_like"] = fn(lambda v, dtype=None: like(v, 1))
-    ex["numpy.full_like"] = fn(lambda v, value, dtype=None: like(v, value))
-    ex["numpy.empty"] = fn(lambda shape, dtype=None: np_full(shape, 0, dtype))
-    ex["numpy.empty_like"] = fn(lambda v, dtype=None: like(v, 0))
-    ex["numpy.eye"] = fn(lambda n, dtype=None: Mat([[1 if i == j else 0 for j in range(n)] for i in range(n)]))
+        out = Vec([value] * len(vals_of(v)))
+        out.dtype = dt
+        return out
+    ex["numpy.zeros_like"] = fn(lambda v, dtype=None: like(v, 0, dtype))
+    ex["numpy.ones_like"] = fn(lambda v, dtype=None: like(v, 1, dtype))
+    ex["numpy.full_like"] = fn(lambda v, value, dtype=None: like(v, value, dtype))
+    ex["numpy.empty"] = fn(lambda shape, dtype=None: np_full(shape, 0, dtype or "float64"))
+    ex["numpy.empty_like"] = fn(lambda v, dtype=None: like(v, 0, dtype))
+    ex["numpy.eye"] = fn(lambda n, m=None, k=0, dtype=None: np_eye(n, dtype) if m in (None, n) and k == 0 else np_eye_general(n, m, k, dtype))
     ex["numpy.identity"] = ex["numpy.eye"]
     ex["numpy.hstack"] = fn(lambda parts: np_concatenate(parts))
     ex["numpy.stack"] = fn(lambda parts, axis=0: np_vstack(parts))
@@ -814,13 +909,15 @@ def install(rt: Runtime) -> Runtime:
     ex["numpy.transpose"] = fn(lambda m: Mat([list(c) for c in zip(*m.rows)]))
     ex["numpy.argwhere"] = fn(lambda v: Mat([[i] for i, x in enumerate(vals_of(v)) if x]) if not isinstance(v, Mat)
                               else Mat([[i, j] for i, r in enumerate(v.rows) for j, x in enumerate(r) if x]))
-    ex["numpy.triu"] = fn(lambda m, k=0: Mat([[x if j - i >= k else 0 for j, x in enumerate(r)] for i, r in enumerate(m.rows)]))
-    ex["numpy.tril"] = fn(lambda m, k=0: Mat([[x if j - i <= k else 0 for j, x in enumerate(r)] for i, r in enumerate(m.rows)]))
+    def zero_like(x):
+        return False if isinstance(x, bool) else (0.0 if isinstance(x, float) else 0)
+    ex["numpy.triu"] = fn(lambda m, k=0: Mat([[x if j - i >= k else zero_like(x) for j, x in enumerate(r)] for i, r in enumerate(m.rows)]))
+    ex["numpy.tril"] = fn(lambda m, k=0: Mat([[x if j - i <= k else zero_like(x) for j, x in enumerate(r)] for i, r in enumerate(m.rows)]))
     ex["numpy.diag"] = fn(lambda m: Vec([m.rows[i][i] for i in range(min(len(m.rows), len(m.rows[0]) if m.rows else 0))])
                           if isinstance(m, Mat) else Mat([[x if i == j else 0 for j in range(len(vals_of(m)))] for i, x in enumerate(vals_of(m))]))
     ex["numpy.linspace"] = fn(lambda a, b, n=50: Vec([a + (b - a) * i / (n - 1) for i in range(n)] if n > 1 else [a]))
-    ex["numpy.float_"] = "float64"
-    ex["numpy.int_"] = "int64"
+    ex["numpy.float_"] = DType("float64")
+    ex["numpy.int_"] = DType("int64")
     ex["numpy.array"] = fn(np_array)
     ex["numpy.min"] = fn(np_min)
     ex["numpy.amin"] = fn(np_min)
@@ -854,6 +951,37 @@ def install(rt: Runtime) -> Runtime:
     ex["igraph.Graph"] = fn(graph_ctor)
     ex["numba.jit"] = fn(lambda *a, **kw: (lambda f: f))
 
+    def np_add_at(a, idx, values):
+        """np.add.at: unbuffered - an index present several times is incremented as many times."""
+        cells = a.vals if isinstance(a, Vec) else None
+        if cells is None:
+            raise Unsupported("add.at target")
+        ids = vals_of(idx) if not isinstance(idx, int) else [idx]
+        vs = vals_of(values) if isinstance(values, (Vec, list, tuple)) else [values] * len(ids)
+        if len(vs) != len(ids):
+            raise ValueError("shape mismatch")
+        for i, v in zip(ids, vs):
+            cells[i] = check_dtype(a.dtype, cells[i] + v, None)
+        return None
+    ex["numpy.add.at"] = fn(np_add_at)
+
+    def np_split(a, sections, axis=0):
+        cells = vals_of(a)
+        if isinstance(sections, int):
+            if sections <= 0 or len(cells) % sections:
+                raise ValueError("array split does not result in an equal division")
+            step = len(cells) // sections
+            cuts = [step * k for k in range(1, sections)]
+        else:
+            cuts = [int(x) for x in vals_of(sections)]
+        out, prev = [], 0
+        for c in cuts + [len(cells)]:
+            c = max(0, min(c if c >= 0 else len(cells) + c, len(cells)))
+            out.append(Vec(cells[prev:c] if c >= prev else []))
+            prev = c
+        return out
+    ex["numpy.split"] = fn(np_split)
+    ex["numpy.array_split"] = fn(np_split)
     ex["numpy.sort"] = fn(np_sort)
     ex["numpy.cumsum"] = fn(np_cumsum)
     ex["numpy.concatenate"] = fn(np_concatenate)
@@ -869,7 +997,7 @@ def install(rt: Runtime) -> Runtime:
         ex[f"{mod}.arange"] = fn(lambda *a, dtype=None: Vec(list(range(*a))) if all(isinstance(x, int) for x in a)
                                  else Vec([a[0] + i * (a[2] if len(a) > 2 else 1) for i in range(int(math.ceil((a[1] - a[0]) / (a[2] if len(a) > 2 else 1))))]))
         for _dt in ("int8", "uint8", "int16", "uint16", "int32", "uint32", "int64", "uint64", "float32", "bool_"):
-            ex[f"{mod}.{_dt}"] = _dt
-        ex[f"{mod}.float64"] = "float64"
+            ex[f"{mod}.{_dt}"] = DType(_dt)
+        ex[f"{mod}.float64"] = DType("float64")
         ex[f"{mod}.ndarray"] = "ndarray"
     return rt
